@@ -98,7 +98,7 @@ func (c Keys) NewWorker(stats *engine.Stats) (engine.Worker, error) {
 	if err != nil {
 		return nil, err
 	}
-	w := &keysWorker{p: p, stats: stats, pool: map[string]env.ConsKey{}, U: p.Cfg.Unbonding, cons: []string{"0", "1", "2"}}
+	w := &keysWorker{p: p, stats: stats, pool: map[string]env.ConsKey{}, U: p.Cfg.Unbonding, cons: []string{"2", "10", "3"}}
 	w.pool["k1"] = env.NewConsKey("k1")
 	w.pool["k2"] = env.NewConsKey("k2")
 	w.pool["pk0"] = p.Vals[0].Key
@@ -114,15 +114,23 @@ func (c Keys) NewWorker(stats *engine.Stats) (engine.Worker, error) {
 		}
 		return nil
 	}
-	// L and S launch at the first block boundary; R 12 s later
-	if err := mk("chain-L", st.Time(), nil); err != nil {
-		return nil, err
-	}
-	if err := mk("chain-R", st.Time().Add(12*time.Second), nil); err != nil {
-		return nil, err
-	}
-	if err := mk("chain-S", st.Time(), nil); err != nil {
-		return nil, err
+	// ids matter (prune entries sort by (len(id), id), consumers are walked by plain id): L="2", S="3", R="10";
+	// the other ids are registered dummies. L and S launch at the first block boundary, R 12 s later.
+	for i := 0; i <= 10; i++ {
+		var err error
+		switch i {
+		case 2:
+			err = mk("chain-L", st.Time(), nil)
+		case 3:
+			err = mk("chain-S", st.Time(), nil)
+		case 10:
+			err = mk("chain-R", st.Time().Add(12*time.Second), nil)
+		default:
+			err = mk("chain-dummy", time.Time{}, nil)
+		}
+		if err != nil {
+			return nil, err
+		}
 	}
 	for _, cid := range w.cons {
 		for _, vi := range []int{0, 1, 2} {
@@ -143,11 +151,11 @@ func (c Keys) NewWorker(stats *engine.Stats) (engine.Worker, error) {
 	}
 	x := n.(*keysNode)
 	// stop S
-	if r := x.S.Deliver(env.MsgRemoveConsumer(user, "2")); r.Err != nil {
+	if r := x.S.Deliver(env.MsgRemoveConsumer(user, "3")); r.Err != nil {
 		return nil, fmt.Errorf("stop S: %w", r.Err)
 	}
-	for _, cid := range []string{"0", "2"} {
-		if ph := p.K.GetConsumerPhase(x.S.Ctx, cid); cid == "0" && ph != providertypes.CONSUMER_PHASE_LAUNCHED {
+	for _, cid := range []string{"2"} {
+		if ph := p.K.GetConsumerPhase(x.S.Ctx, cid); ph != providertypes.CONSUMER_PHASE_LAUNCHED {
 			return nil, fmt.Errorf("consumer %s phase %v", cid, ph)
 		}
 	}
@@ -174,17 +182,19 @@ func (w *keysWorker) build() {
 		dt := dt
 		w.tab.Add(fmt.Sprintf("block(%s)", dt), func(n engine.Node) (engine.Node, []V) { return w.block(n, dt) })
 	}
-	for _, vi := range []int{0, 1} {
-		for _, cid := range []string{"0", "1"} {
-			for _, kn := range w.names {
-				vi, cid, kn := vi, cid, kn
-				w.tab.Add(fmt.Sprintf("assign(v%d,c%s,%s)", vi, cid, kn), func(n engine.Node) (engine.Node, []V) {
-					return w.assign(n, vi, cid, kn, false)
-				})
-			}
+	for _, a := range []struct {
+		vi   int
+		cid  string
+		keys []string
+	}{{0, "2", w.names}, {0, "10", w.names}, {1, "2", []string{"k1", "k2", "pk0"}}} {
+		for _, kn := range a.keys {
+			vi, cid, kn := a.vi, a.cid, kn
+			w.tab.Add(fmt.Sprintf("assign(v%d,c%s,%s)", vi, cid, kn), func(n engine.Node) (engine.Node, []V) {
+				return w.assign(n, vi, cid, kn, false)
+			})
 		}
 	}
-	w.tab.Add("optin(v1,c1,k2)", func(n engine.Node) (engine.Node, []V) { return w.assign(n, 1, "1", "k2", true) })
+	w.tab.Add("optin(v1,c10,k2)", func(n engine.Node) (engine.Node, []V) { return w.assign(n, 1, "10", "k2", true) })
 	for _, kn := range []string{"pk3", "k1", "k2"} {
 		kn := kn
 		w.tab.Add(fmt.Sprintf("create(v3,%s)", kn), func(n engine.Node) (engine.Node, []V) { return w.create(n, kn) })
@@ -201,10 +211,10 @@ func (w *keysWorker) build() {
 		}
 		return c, w.invariants(c, "tx")
 	})
-	w.tab.Add("stop(c0)", func(n engine.Node) (engine.Node, []V) {
+	w.tab.Add("stop(c2)", func(n engine.Node) (engine.Node, []V) {
 		x := n.(*keysNode)
 		c := x.child()
-		if r := c.S.Deliver(env.MsgRemoveConsumer(p.Users[0].Addr.String(), "0")); r.Err != nil {
+		if r := c.S.Deliver(env.MsgRemoveConsumer(p.Users[0].Addr.String(), "2")); r.Err != nil {
 			return nil, nil
 		}
 		return c, w.invariants(c, "tx")
